@@ -2574,7 +2574,16 @@ static Value eval_call(ASTNode *node, Environment *env) {
     if (strcmp(name, "reduce") == 0) return builtin_reduce(args, env);
     
     /* Dynamic array operations (GC-managed) */
-    if (strcmp(name, "array_push") == 0) return builtin_array_push(args);
+    if (strcmp(name, "array_push") == 0) {
+        Value pushed = builtin_array_push(args);
+        /* A push onto a fresh [] makes a new dynamic array.  In the statement form '(array_push xs v)'
+         * nobody stores it, although the compiled program pushes in place: store it in xs here. */
+        if (args[0].type == VAL_ARRAY && pushed.type == VAL_DYN_ARRAY &&
+            node->as.call.arg_count >= 1 && node->as.call.args[0]->type == AST_IDENTIFIER) {
+            env_set_var(env, node->as.call.args[0]->as.identifier, pushed);
+        }
+        return pushed;
+    }
     if (strcmp(name, "array_pop") == 0) return builtin_array_pop(args);
     if (strcmp(name, "array_remove_at") == 0) return builtin_array_remove_at(args);
     
